@@ -310,6 +310,18 @@ def r3_forbidden_sources(ctx):
             for st in f.stmts(b):
                 if st['k'] == 'assign' and st['r']['k'] == 'cast' and st['r']['ck'] == 'PointerExposeProvenance' and not st.get('exp'):
                     ctx.violation('ptr-to-int:%s' % f.key, 'pointer-to-integer cast outside the allocator (address-dependent value)', f.where(b))
+    # a collection handed to the user is iterated by the user: no public function of the simulation crates returns (or yields through a
+    # reference) a std HashMap / HashSet with the default, randomly keyed hasher — the routing tables are FxHashMaps for that reason
+    n_pub = 0
+    for f in P.fn_list:
+        if f.kind not in ('fn', 'assocfn') or f.vis != 'pub' or not f.key.startswith(('des::', '<des::', 'des_net_utils::', '<des_net_utils::')) or '::bench' in f.key:
+            continue
+        n_pub += 1
+        rt = str(f.local_ty(0))
+        inner = re.sub(r'^(std::option::Option|std::result::Result|std::boxed::Box|std::sync::Arc|std::rc::Rc)<', '', rt)
+        if _default_hashed(rt) or _default_hashed(inner.rstrip('>')) or 'RandomState' in rt:
+            ctx.violation('hash-order-handed-out:%s' % f.key, 'a public function returns a RandomState-hashed collection (its iteration order differs from run to run)', f.where(), rt[:160])
+    ctx.floor('public functions whose result type was inspected', n_pub, 100)
     ctx.floor('canary: wall-clock uses in runtime::bench (matcher alive)', canary, 2)
     ctx.ok('no forbidden nondeterminism API among %d call sites outside the allow-listed modules' % n)
 
@@ -533,7 +545,41 @@ def r5_identity_counters(ctx):
            % (len(t_fields), len(keyed), n_iter), None, sorted('%s.%s' % (a.split('::')[-1], b) for a, b in t_fields)[:12])
 
 
+def r6_builder_keeps_seed(ctx):
+    """the seed given to `Builder::seeded` survives every other option: a by-value setter of the runtime builder returns the builder it
+    was given, or a builder whose every field is that builder's field or computed from the setter's own arguments — never a default"""
+    ctx.set_rule('C04.R6')
+    P = ctx.P
+    B = 'des::runtime::builder::Builder'
+    n = 0
+    for k, f in sorted(P.fns.items()):
+        if not k.startswith(B + '::') or f.kind not in ('fn', 'assocfn') or f.argc < 1:
+            continue
+        if strip_generics(str(f.local_ty(1))) != B or strip_generics(str(f.local_ty(0))) != B:
+            continue
+        ctx.touch(f)
+        n += 1
+        for b, t in ret_trees(f):
+            t = peel(t)
+            if t[0] == 'arg' and t[1] == 1:
+                continue
+            bad = None
+            if t[0] == 'agg' and str(t[1]).endswith('Builder::Builder') and len(t) > 3:
+                for name, comp in zip(t[3], t[2]):
+                    from_self = any(x[0] == 'field' and x[2] == name and peel(x[1])[0] == 'arg' and peel(x[1])[1] == 1 for x in walk(comp))
+                    from_args = any(x[0] == 'arg' and x[1] != 1 for x in walk(comp))
+                    if not (from_self or from_args):
+                        bad = (name, show(comp)[:80])
+                        break
+            else:
+                bad = ('?', show(t)[:120])
+            ctx.check(bad is None, 'setter-keeps-other-options:%s' % k.split('::')[-1], 'a builder option leaves every other option (the RNG seed among them) as it was',
+                      f.where(b), bad)
+    ctx.floor('by-value setters of the runtime builder', n, 4)
+
+
 def run(ctx):
+    r6_builder_keeps_seed(ctx)
     r5_identity_counters(ctx)
     r1_one_rng(ctx)
     r2_seeded_executors(ctx)
